@@ -51,7 +51,7 @@ def circuits(tier):
     """Yields (name, params, m_inputs, builder(cnf)->(spec_fn(z))) ."""
     wmax = 8 if tier == 'thorough' else 6
     smax = 6 if tier == 'thorough' else 5
-    nmax = 20 if tier == 'thorough' else 12
+    nmax = 24 if tier == 'thorough' else 12
 
     def half(cnf):
         c, s = cnf.half_adder(V(1), V(2))
@@ -183,7 +183,7 @@ def run(ctx):
                                                     'ripple_saturate', 'pop_count', '_pop_count_layer')]
     thorough = ctx.tier == 'thorough'
     ctx.bounds = {'ripple_carry_width': '1..8' if thorough else '1..6', 'ripple_saturate_width': '1..6' if thorough else '1..5',
-                  'ripple_saturate_at': 'width..width+1', 'pop_count_n': '1..20 (n>12: SAT miter against an independent unary counter)' if thorough else '1..12',
+                  'ripple_saturate_at': 'width..width+1', 'pop_count_n': '1..24 (n>12: SAT miter against an independent unary counter)' if thorough else '1..12',
                   'pop_count_saturate_at': '0..6'}
     ctx.outside += ['operand lists of different length (no caller produces them)', 'widths beyond the bound',
                     'ripple_saturate with more variables than saturate_at (excluded by the code comment)']
